@@ -217,10 +217,11 @@ class MarkerExpression(SingleMarker):
             oper = _operators.get(self.op)
         if self.name in MARKERS_ALLOWING_SET:
             lhs = normalize_name(lhs)
-            if isinstance(rhs, set):
-                rhs = {normalize_name(v) for v in rhs}
-            else:
+            if isinstance(rhs, str):
                 rhs = normalize_name(rhs)
+            else:
+                # any set-like value (set, frozenset, ...) as packaging accepts
+                rhs = {normalize_name(v) for v in rhs}
         if isinstance(rhs, str) and (
             self.name in self._VERSION_LIKE_MARKER_NAME
             or self.name == "implementation_version"
